@@ -688,6 +688,17 @@ def check_dm(case, ctx):
     g0 = ctx.call(dm0.render_backprop, y.copy(), wfe)
     U.check_close(np.asarray(g0), np.asarray(g), 1e-9, bucket + ':after-flat-render', 'render_backprop on a fresh DM after a flat render differs from the gradient after a non-flat render',
                   atol=1e-12 * max(float(np.abs(np.asarray(g)).max()), 1e-300))
+    # a copy() of the mirror commanded through update(): the copy renders its own commands and hands back the same gradient, the original keeps its own
+    dmc = ctx.call(dm.copy)
+    ctx.call(dmc.update, a2.copy())
+    Rc = np.asarray(ctx.call(dmc.render, wfe))
+    U.check_close(Rc, Ra2, 0, 'DM.copy:render', 'a copy commanded through update() renders something else than the original with the same commands',
+                  atol=1e-10 * max(float(np.abs(Ra2).max()), 1e-300))
+    U.check_equal(np.asarray(dm.actuators), a, 'DM.copy:shares-actuators', 'commanding the copy changed the original mirror\'s actuators')
+    gc = ctx.call(dmc.render_backprop, y.copy(), wfe)
+    U.check_close(np.asarray(gc), g, 1e-9, 'DM.copy:render_backprop', 'render_backprop of a copy differs from the original\'s', atol=1e-12 * max(float(np.abs(g).max()), 1e-300))
+    Rb = render(a)
+    U.check_close(Rb, Ra, 0, 'DM.copy:original-changed', 'the original renders something else after its copy was used', atol=1e-10 * max(float(np.abs(Ra).max()), 1e-300))
     if rotated:
         adjoint_check(ctx, Ra, a, g, y, 'DM.render_backprop:rotated:not-the-adjoint', what, tol=1e-9)
 
